@@ -66,7 +66,8 @@ PrtParts(imgs, nlayers) ==
 PBytes(parts) == Flatten([i \in 1..Len(parts) |-> parts[i].b])
 SetPart(parts, i, v) == [parts EXCEPT ![i].b = v]
 IndexOf(parts, name, k) == CHOOSE i \in 1..Len(parts) : parts[i].n = name /\ Cardinality({j \in 1..i : parts[j].n = name}) = k
-BaseImgs == << [scan |-> 8, off |-> 0, h |-> 3, w |-> 5, type |-> 1, pal |-> 0], [scan |-> 4, off |-> 24, h |-> 2, w |-> 3, type |-> 5, pal |-> 0] >>
+BaseImgs == << [scan |-> 8, off |-> 0, h |-> 3, w |-> 5, type |-> 1, pal |-> 0], [scan |-> 4, off |-> 24, h |-> 2, w |-> 3, type |-> 5, pal |-> 0],
+              [scan |-> 40, off |-> 32, h |-> 2, w |-> 40, type |-> 4, pal |-> 0] >>       \* ... and a shadow (1-bit) image wide enough for its 1-bit pitch to differ from its scan-line width
 PrtValues(name) == Common32 \cup (CASE name \in {"img.scan", "img.width"} -> { LE32(3), LE32(4), LE32(5), LE32(8), B(253,255,255,255), B(252,255,255,255) }
                                     [] name = "img.height" -> { LE32(3), LE32(4), B(0,0,0,64) }
                                     [] name = "img.offset" -> { LE32(24), LE32(100), LE32(2000), B(0,0,0,64) }
